@@ -47,25 +47,78 @@ theorem pool_set {cvals : Array Value} {cs : List Const} {h : Heap} {μ : AMap} 
       have : a0 ≠ a' := by intro e; subst e; exact h3 a hm
       exact ⟨a0, h1, by rw [heap_set_get_other h a' a0 c this]; exact h2, h3⟩, hp.lits⟩
 
+/-! ### the managed list -/
+
+theorem heap_arr_lt (h : Heap) (a : Nat) (mvs : List Value) (hx : h.get a = .arr mvs) : a < h.cells.size := by
+  unfold Heap.get at hx
+  by_cases hlt : a < h.cells.size
+  · exact hlt
+  · have : h.cells[a]? = none := by simp; omega
+    simp [Array.getD_eq_getD_getElem?, this] at hx
+
+/-- allocation of a cell on the machine; `hμ` covers the case where the new cell is an array -/
+theorem mok_alloc {μ μ' : AMap} {m : Mem} (hm : MemOK μ m) (c : Cell) (hmap : ∀ a a', μ a = some a' → μ' a = some a')
+    (hnew : ∀ mvs, c = .arr mvs → ∃ a0, μ' a0 = some m.heap.cells.size) :
+    MemOK μ' { heap := (m.heap.alloc c).1, managed := m.heap.cells.size :: m.managed } := by
+  refine ⟨?_, ?_, ?_⟩
+  · refine List.nodup_cons.2 ⟨fun hin => ?_, hm.nd⟩
+    have := hm.lt _ hin; omega
+  · intro a ha
+    have : (m.heap.alloc c).1.cells.size = m.heap.cells.size + 1 := by simp [Heap.alloc]
+    show a < (m.heap.alloc c).1.cells.size
+    rw [this]
+    cases List.mem_cons.1 ha with
+    | inl e => omega
+    | inr e => have := hm.lt a e; omega
+  · intro a mvs hg
+    by_cases hlt : a < m.heap.cells.size
+    · rw [heap_push_get_old m.heap c a hlt] at hg
+      obtain ⟨h1, a0, h2⟩ := hm.arrs a mvs hg
+      exact ⟨List.mem_cons_of_mem _ h1, a0, hmap _ _ h2⟩
+    · have hlt' : a < (m.heap.alloc c).1.cells.size := heap_arr_lt _ a mvs hg
+      have : (m.heap.alloc c).1.cells.size = m.heap.cells.size + 1 := by simp [Heap.alloc]
+      have e : a = m.heap.cells.size := by omega
+      subst e
+      rw [heap_push_get_new] at hg
+      exact ⟨List.mem_cons_self, hnew mvs hg⟩
+
+theorem heap_set_size (h : Heap) (a : Nat) (c : Cell) : (h.set a c).cells.size = h.cells.size := by simp [Heap.set]
+
+theorem heap_set_get_self (h : Heap) (a : Nat) (c : Cell) (ha : a < h.cells.size) : (h.set a c).get a = c := by
+  simp [Heap.set, Heap.get, Array.getD_eq_getD_getElem?, ha]
+
+/-- a cell replaced at a mapped address whose old cell was managed -/
+theorem mok_set {μ : AMap} {m : Mem} (hm : MemOK μ m) (a0 a' : Nat) (hμ : μ a0 = some a') (c : Cell) (hman : ∀ mvs, c = .arr mvs → a' ∈ m.managed) :
+    MemOK μ { m with heap := m.heap.set a' c } := by
+  refine ⟨hm.nd, fun a ha => by rw [heap_set_size]; exact hm.lt a ha, ?_⟩
+  intro a mvs hg
+  by_cases e : a = a'
+  · subst e
+    have hlt : a < m.heap.cells.size := by have := heap_arr_lt _ a mvs hg; rwa [heap_set_size] at this
+    rw [heap_set_get_self _ _ _ hlt] at hg
+    exact ⟨hman mvs hg, a0, hμ⟩
+  · rw [heap_set_get_other _ _ _ _ e] at hg; exact hm.arrs a mvs hg
+
 section inv
 variable {s0 : VM} {CS : List Const} {Γ : Gam} {μ : AMap} {st : SState} {g : Array Value} {l : Value} {m : Mem} {out : List Text}
 
 /-- the invariant after a step that grew the state, given the new heap relation and pool facts -/
 theorem Inv5.move {μ' : AMap} {st' : SState} {m' : Mem} (hinv : Inv5 s0 CS Γ μ st g l m out) (hg : Grow μ st m.heap μ' st' m'.heap)
     (hgenv : st'.genv = st.genv) (hlast : st'.last = st.last) (hout : st'.out = st.out)
-    (hr : HR μ' st' m'.heap) (hp : PoolH s0.cvals CS m'.heap μ') : Inv5 s0 CS Γ μ' st' g l m' out :=
+    (hr : HR μ' st' m'.heap) (hp : PoolH s0.cvals CS m'.heap μ') (hmok : MemOK μ' m') : Inv5 s0 CS Γ μ' st' g l m' out :=
   ⟨fun b k hm v hv => by
       rw [hgenv] at hv
       obtain ⟨mv, h1, h2⟩ := hinv.relG b k hm v hv
       exact ⟨mv, h1.grow hg, h2⟩,
-   by rw [hlast]; exact hinv.last.grow hg, hr, by rw [hout]; exact hinv.out, hp⟩
+   by rw [hlast]; exact hinv.last.grow hg, hr, by rw [hout]; exact hinv.out, hp, hmok⟩
 
 /-- a float result is boxed on the machine only -/
 theorem inv_alloc_float (hinv : Inv5 s0 CS Γ μ st g l m out) (x : UInt64) :
     Inv5 s0 CS Γ μ st g l (m.allocFloat x).1 out ∧ Grow μ st m.heap μ st (m.allocFloat x).1.heap ∧
     VRh μ st (m.allocFloat x).1.heap (.float x) (m.allocFloat x).2 := by
   have hg := grow_machine_alloc μ st m.heap (.float x)
-  refine ⟨hinv.move hg rfl rfl rfl (hr_machine_alloc hinv.hr _) (pool_machine_alloc hinv.pool _), hg, ?_⟩
+  refine ⟨hinv.move hg rfl rfl rfl (hr_machine_alloc hinv.hr _) (pool_machine_alloc hinv.pool _)
+    (mok_alloc hinv.mok (.float x) (fun _ _ h => h) (fun mvs e => by cases e)), hg, ?_⟩
   simp only [Mem.allocFloat, VRh]
   exact heap_push_get_new m.heap (.float x)
 
@@ -76,7 +129,8 @@ theorem inv_alloc_str (hinv : Inv5 s0 CS Γ μ st g l m out) (s : Text) :
     VRh (μ.ext st.store.size m.heap.cells.size) (st.alloc (.str s)).1 (m.allocStr s).1.heap (.str (st.alloc (.str s)).2) (m.allocStr s).2 := by
   have hg := grow_both_alloc hinv.hr (.str s) (.str s)
   have hr' := hr_both_alloc hinv.hr (.str s) (.str s) ⟨fun s' e => (by injection e with e; rw [e]), fun vs e => (by cases e)⟩
-  refine ⟨hinv.move hg rfl rfl rfl hr' (pool_both_alloc hinv.pool _ _), hg, ?_⟩
+  refine ⟨hinv.move hg rfl rfl rfl hr' (pool_both_alloc hinv.pool _ _)
+    (mok_alloc hinv.mok (.str s) hg.map (fun mvs e => by cases e)), hg, ?_⟩
   simp [Mem.allocStr, SState.alloc, Heap.alloc, VRh, AMap.ext, isStrCell]
 
 /-- a new array on both sides -/
@@ -86,7 +140,8 @@ theorem inv_alloc_arr (hinv : Inv5 s0 CS Γ μ st g l m out) (vs : List SVal) (m
     VRh (μ.ext st.store.size m.heap.cells.size) (st.alloc (.arr vs)).1 (m.allocArr ms).1.heap (.arr (st.alloc (.arr vs)).2) (m.allocArr ms).2 := by
   have hg := grow_both_alloc hinv.hr (.arr vs) (.arr ms)
   have hr' := hr_both_alloc hinv.hr (.arr vs) (.arr ms) ⟨fun s' e => (by cases e), fun vs' e => (by injection e with e; subst e; exact ⟨ms, rfl, hl⟩)⟩
-  refine ⟨hinv.move hg rfl rfl rfl hr' (pool_both_alloc hinv.pool _ _), hg, ?_⟩
+  refine ⟨hinv.move hg rfl rfl rfl hr' (pool_both_alloc hinv.pool _ _)
+    (mok_alloc hinv.mok (.arr ms) hg.map (fun mvs e => ⟨st.store.size, by simp [AMap.ext]⟩)), hg, ?_⟩
   simp [Mem.allocArr, SState.alloc, Heap.alloc, VRh, AMap.ext, isArrCell]
 /-- a cell replaced on both sides (index assignment) -/
 theorem inv_set (hinv : Inv5 s0 CS Γ μ st g l m out) (a a' : Nat) (hm : μ a = some a') (sc0 sc : SCell) (c : Cell)
@@ -96,7 +151,16 @@ theorem inv_set (hinv : Inv5 s0 CS Γ μ st g l m out) (a a' : Nat) (hm : μ a =
     Grow μ st m.heap μ { st with store := st.store.setIfInBounds a sc } (m.heap.set a' c) := by
   have hg := grow_set hinv.hr a a' hm sc0 sc c h0 hk hnf
   exact ⟨hinv.move (m' := { m with heap := m.heap.set a' c }) hg rfl rfl rfl (hr_set hinv.hr a a' hm sc0 sc c h0 hk hnf hnew)
-    (pool_set hinv.pool a a' hm c hnf), hg⟩
+    (pool_set hinv.pool a a' hm c hnf) (mok_set hinv.mok a a' hm c (fun mvs e => by
+      subst e
+      cases sc with
+      | str s => have := hnew.1 s rfl; cases this
+      | arr vs =>
+        cases sc0 with
+        | str s0 => simp [sameKind] at hk
+        | arr vs0 =>
+          obtain ⟨mvs0, h1, _⟩ := hinv.hr.arr a a' vs0 hm h0
+          exact (hinv.mok.arrs a' mvs0 h1).1)), hg⟩
 end inv
 
 end SimH
